@@ -80,6 +80,7 @@ func profRelayTight() *Profile {
 	p := profRelay()
 	p.Name = "relaytight"
 	p.TightCU = true
+	p.StaticSpec = true // the per-epoch allowance must hold on static-provider specs too
 	p.W["setpolicy"] = 6
 	p.W["setsubpolicy"] = 4
 	p.W["longblock"] = 4
